@@ -25,6 +25,11 @@ struct Source : public random_utils::verif_random_source {
 };
 static Source src;
 
+// observation of a C++ exception: the single token `throw` (message only with VH_VERBOSE, for debugging)
+static std::string thrown(const std::exception& e) {
+  return getenv("VH_VERBOSE") ? std::string("throw ") + e.what() : std::string("throw");
+}
+
 struct Obj {
   std::unique_ptr<sketch_t> sk;
   std::unique_ptr<union_t> un;
@@ -97,8 +102,8 @@ static std::string step(const std::vector<std::string>& wfull) {
     int64_t item = strtoll(w[2].c_str(), nullptr, 10);
     double wt = vh::f64_of_hex(w[3]);
     try { o->sk->update(item, wt); }
-    catch (const std::invalid_argument&) { return "throw"; }   // argument validation happens before any mutation
-    catch (const std::exception&) { put_dead(I(1)); return "throw"; }
+    catch (const std::invalid_argument& e) { return thrown(e); }   // argument validation happens before any mutation
+    catch (const std::exception& e) { put_dead(I(1)); return thrown(e); }
     return observe(*o->sk);
   }
   if (op == "copy" && w.size() == 3) {
@@ -142,7 +147,7 @@ static std::string step(const std::vector<std::string>& wfull) {
     Obj* s = live(I(2), false);
     if (!u || !s) return "dead";
     try { u->un->update(*s->sk); }
-    catch (const std::exception&) { put_dead(I(1)); return "throw"; }
+    catch (const std::exception& e) { put_dead(I(1)); return thrown(e); }
     return "U c=" + std::to_string(src.used_u) + "," + std::to_string(src.used_i);
   }
   if (op == "ures" && w.size() == 3) {
